@@ -1,4 +1,4 @@
-import Eru.CpuMem.ProofsCommit
+import Eru.CpuMem.ProofsNumaMem
 /-
 C04 — allocations never overcommit a node's CPU cores or memory.
 Property theorems only; helper lemmas live in Eru/CpuMem/Proofs*.lean.
@@ -57,14 +57,51 @@ theorem plans_fit_memory (info : NodeInfo) (origin : CpuMap) (B maxShare : Int) 
     fitMemory info.available.mem req.mem ps.length = true :=
   getCPUPlans_fit_memory info origin B maxShare req order ps h
 
-/-- **commit_valid** (proved for nodes without NUMA topology; with NUMA the clause is checked on every
-    generated case by the oracle, `C04:commit`): for a valid node whose memory usage fits, a bound
-    deployment computed by `CalculateDeploy` and committed with `SetNodeResourceUsage` leaves a node
-    state that `Validate` accepts and whose memory usage still fits (C10's memory clause, which
-    `Validate` itself does not check). -/
+/-- **numa_plans_memory** (the memory half of `numa_plans_local`): for a positive memory request the
+    plans tagged with NUMA node `n` together need at most `n`'s free NUMA memory
+    (`#plans(n) · mem ≤ capacity.numaMem[n] − usage.numaMem[n]`), for every node state, through the
+    running subtraction of the NUMA groups; with the cores half this is the decidable clause `numaLocal`. -/
+theorem numa_plans_memory (info : NodeInfo) (origin : CpuMap) (B maxShare : Int) (req : Req)
+    (order : List String) (ps : List CpuPlan) (hB : 1 ≤ B) (hwf : WF info) (hord : order.Nodup) (hm : 0 < req.mem)
+    (h : getCPUPlans info origin B maxShare req order = .ok ps) :
+    (∀ n, n ≠ "" → (cnt ps n : Int) * req.mem ≤ max (info.available.numaMem.get n) 0) ∧
+    numaLocal info.cap.numa info.available.numaMem req.mem ps = true := by
+  have hmem := fun n hn => getCPUPlans_numa_memory info origin B maxShare req order hord hm ps h n hn
+  refine ⟨hmem, ?_⟩
+  have hloc := numa_plans_local info origin B maxShare req order ps hB hwf hord h
+  unfold numaLocal
+  rw [List.all_eq_true]
+  intro p hp
+  by_cases he : p.numa = ""
+  · simp [he]
+  · have hne : p.numa.isEmpty = false := by
+      cases hh : p.numa.isEmpty with
+      | false => rfl
+      | true => exact absurd (String.isEmpty_iff.mp hh) he
+    simp only [hne, Bool.false_or, Bool.and_eq_true, List.all_eq_true, decide_eq_true_eq]
+    refine ⟨?_, ?_⟩
+    · intro kv hkv
+      have := hloc p hp he kv.1 (List.mem_map_of_mem hkv)
+      simp [this]
+    · have hb := hmem p.numa he
+      have hc : 1 ≤ cnt ps p.numa := by
+        unfold cnt
+        exact List.length_pos_of_mem (List.mem_filter.mpr ⟨hp, by simp⟩)
+      have h1 : (1 : Int) * req.mem ≤ (cnt ps p.numa : Int) * req.mem :=
+        Int.mul_le_mul_of_nonneg_right (by omega) (by omega)
+      show ((List.filter (fun q => q.numa == p.numa) ps).length : Int) * req.mem ≤ _
+      change (cnt ps p.numa : Int) * req.mem ≤ _
+      omega
+
+/-- **commit_valid**: for a valid node whose memory usage fits — with or without NUMA topology — a
+    bound deployment computed by `CalculateDeploy` and committed with `SetNodeResourceUsage` leaves a
+    node state that `Validate` accepts (CPU clause and NUMA-memory clause) and whose memory usage still
+    fits (C10's memory clause, which `Validate` itself does not check).  The usage and NUMA-memory maps
+    are maps (distinct keys). -/
 theorem commit_valid (info : NodeInfo) (B maxShare count : Int) (raw w : RawReq) (order : List String) (ws : List Workload)
-    (hB : 1 ≤ B) (hwf : WF info) (huk : info.use.cpuMap.keys.Nodup) (hord : order.Nodup)
-    (hval : info.validate = true) (hmv : memValid info = true) (hnuma : info.cap.numa = [])
+    (hB : 1 ≤ B) (hwf : WF info) (huk : info.use.cpuMap.keys.Nodup)
+    (hcm : info.cap.numaMem.keys.Nodup) (hum : info.use.numaMem.keys.Nodup) (hord : order.Nodup)
+    (hval : info.validate = true) (hmv : memValid info = true)
     (hraw : raw.validate = .ok w) (hbind : w.bind = true) (hmem : 0 ≤ w.memReq)
     (h : calculateDeploy info B maxShare count raw order = .ok ws) :
     ∃ info', commit info ws = .ok info' ∧ memValid info' = true := by
@@ -79,12 +116,22 @@ theorem commit_valid (info : NodeInfo) (B maxShare count : Int) (raw w : RawReq)
     · split at h
       · cases h
       · cases h
-        apply commit_valid_nonnuma info [] B maxShare w.toReq order plans count.toNat _ hB hwf.1 huk hord hval hnuma hmem hmv hpl
+        have hV3 := commit_numa_clause info [] B maxShare w.toReq order plans count.toNat
+          ((plans.take count.toNat).map fun p =>
+            { cpuReq := w.cpuReq, cpuLim := w.cpuLim, memReq := w.memReq, memLim := w.memLim, cpuMap := p.cpuMap, numa := p.numa,
+              numaMem := if p.numa.isEmpty then [] else [(p.numa, w.memReq)] })
+          hord hval hcm hum hmem hpl (by rw [List.map_map]; rfl)
+        apply commit_valid_core info [] B maxShare w.toReq order plans count.toNat _ hB hwf.1 huk hord hval hwf.2 hV3 hmem hmv hpl
         · rw [List.map_map, ← List.map_take]; rfl
         · intro x hx
           obtain ⟨p, _, rfl⟩ := List.mem_map.mp hx
           rfl
   all_goals cases h
+
+/-- the hypotheses of `commit_valid` are satisfiable on a NUMA node: two NUMA-local instances of
+    0.5 core / 10 memory are committed to `exampleNode` -/
+example : (match calculateDeploy exampleNode 100 (-1) 2 { bind := true, cpuReq := 500, cpuLim := 500, memReq := 10, memLim := 10 } ["n1", "n0"] with
+    | .ok ws => (match commit exampleNode ws with | .ok i => i.validate && memValid i | _ => false) | _ => false) = true := by decide
 
 /-- the D6 witness (node memory 100 with 90 used, NUMA memory 50/50, request 0.5 core / 20 memory;
     fragment requests avoid the heap, whose well-founded `up`/`down` the kernel does not unfold):
